@@ -182,6 +182,16 @@ def gen_params(r):
         "lrate": [round(1.0 / r.choice([50.0, 100.0, 200.0]), 6) for _ in range(2)],
         "seed": r.randint(0, 10 ** 6),
     }
+    # initial configuration of the propagators: about half of them get their OWN time step refinement
+    # (pr.setDtRefinement(k)) when they are built - part of the world, not a call of the history
+    p["refine"] = {}
+    for k in ["H", "T", "TS", "O", "TD", "TDO", "F", "TDF", "CRF", "LF", "PD", "PDG", "OPD", "sv"]:
+        if r.random() < 0.5:
+            opts = [2, 3, 4]
+            if k in ("TD", "TDF"):
+                opts = [d for d in (2, 4) if p["step"] % d == 0]
+            if opts:
+                p["refine"][k] = r.choice(opts)
     for i in range(nmol):
         for j in range(i + 1, nmol):
             v = r.choice([-1, 1]) * r.randint(15, 160)
@@ -286,10 +296,14 @@ class World:
                 pr = ReducedDensityMatrixPropagator(time, o["rh:O"], RTensor=o["rt:O"], PDeph=o["pdeph"])
             else:
                 pr = ReducedDensityMatrixPropagator(time, o["rh:" + k], RTensor=o["rt:" + k])
+            if p.get("refine", {}).get(k, 1) > 1:
+                pr.setDtRefinement(p["refine"][k])
             o[name] = pr
             return pr
         if name == "sv":
             o["sv"] = StateVectorPropagator(time, ham)
+            if p.get("refine", {}).get("sv", 1) > 1:
+                o["sv"].setDtRefinement(p["refine"]["sv"])
             return o["sv"]
         if name == "kk":
             o["kk"] = agg.get_RedfieldRateMatrix()
@@ -550,6 +564,8 @@ METHOD_L = {None: 4, "short-exp": 4, "short-exp-2": 2, "short-exp-4": 4, "short-
 
 def coq_call(c, p):
     L = c.get("L", METHOD_L.get(c.get("method"), 4))
+    if c["op"] == "build" and c["name"].startswith("dm:"):
+        return "(mkCall %s %d %d %d)" % (coq_shape(c), p.get("refine", {}).get(c["name"][3:], 1), L, int(p["cut"]))
     return "(mkCall %s %d %d %d)" % (coq_shape(c), max(0, c.get("nref", 0)), L, int(p["cut"]))
 
 
@@ -638,6 +654,14 @@ CORPUS = [
     {"calls": [{"op": "build", "name": "rt:T"}, {"op": "build", "name": "dm:T"}, {"op": "dmprop", "kind": "T"},
                {"op": "dmprop", "kind": "T", "nref": 3}, {"op": "dmprop", "kind": "T"},
                {"op": "dmprop", "kind": "T", "nref": 1}, {"op": "dmprop", "kind": "T", "nref": 3}]},
+    # propagators with their own refinement: per-call Nref must leave (Nref, dt) as configured
+    {"refine": {"T": 3, "H": 2, "O": 4, "sv": 2},
+     "calls": [{"op": "build", "name": "rt:T"}, {"op": "build", "name": "dm:T"}, {"op": "build", "name": "dm:H"},
+               {"op": "build", "name": "rt:O"}, {"op": "build", "name": "dm:O"}, {"op": "build", "name": "sv"},
+               {"op": "dmprop", "kind": "T"}, {"op": "dmprop", "kind": "T", "nref": 2}, {"op": "dmprop", "kind": "T"},
+               {"op": "dmprop", "kind": "T", "nref": 3}, {"op": "dmprop", "kind": "H"}, {"op": "dmprop", "kind": "H", "nref": 4},
+               {"op": "dmprop", "kind": "H"}, {"op": "dmprop", "kind": "O", "nref": 2}, {"op": "dmprop", "kind": "O"},
+               {"op": "svprop"}, {"op": "dmprop", "kind": "O", "nref": 4}, {"op": "svprop"}]},
     # a tensor construction that raises, then propagation with the shared Hamiltonian
     {"calls": [{"op": "build", "name": "dm:H"}, {"op": "build", "name": "sv"}, {"op": "dmprop", "kind": "H"},
                {"op": "svprop"}, {"op": "reltensor", "kind": "CRFTD"}, {"op": "dmprop", "kind": "H"},
@@ -903,6 +927,8 @@ def main():
         for cc in CORPUS:
             for _ in range(2 if args.tier == "quick" else 6):
                 p = gen_params(r)
+                if "refine" in cc:
+                    p["refine"] = dict(cc["refine"])
                 cases.append({"params": p, "calls": cc["calls"]})
         cases += [gen_history(r, k) for k in range(n)]
     import quantarhei  # noqa: imported before forking
